@@ -57,6 +57,8 @@ fn chk_err(e: &CheckpointError) -> &'static str {
                 "noFooter"
             } else if m.contains("Data size mismatch") {
                 "size"
+            } else if m.contains("data truncated") {
+                "truncated"
             } else if m.contains("Compression") {
                 "compression"
             } else {
@@ -99,13 +101,21 @@ const KEYS: [&str; 8] = ["", "k", "key:é", "a\u{0}b", "\u{10FFFF}", "with space
 
 /// deltas of every CRDT kind and shape; keys made distinct inside one batch
 fn gen_deltas(rng: &mut Rng, out: &mut Out, n: usize) -> Vec<ReplicationDelta> {
-    let pool = c07::reachable_pool(rng, 12, out);
+    // forked generators: what the shared value generators draw (it can depend on HashMap iteration
+    // order) must not shift this harness' own random stream
+    let mut prng = Rng::new(rng.next());
+    let mut pool = c07::reachable_pool(&mut prng, 12, out);
+    // (the stored values come out of a HashMap: canonical order, so that an index picks the same value on every run)
+    pool.sort_by_key(show_real);
     let mut ds = Vec::new();
     for i in 0..n {
         let v: ReplicatedValue = match rng.below(10) {
             0..=3 => c07::random_value(rng).to_real(),
             4..=5 if !pool.is_empty() => pool[rng.below(pool.len() as u64) as usize].clone(),
-            6 => c07::api_crdt_value(rng),
+            6 => {
+                let mut arng = Rng::new(rng.next());
+                c07::api_crdt_value(&mut arng)
+            }
             7 => {
                 // many hash fields
                 let mut h = std::collections::BTreeMap::new();
@@ -277,6 +287,286 @@ fn gossip_roundtrips(ds: &[ReplicationDelta], rng: &mut Rng, out: &mut Out) {
     }
 }
 
+
+// ---------------------------------------------------------------------------------------------
+// the concrete bincode model (lean/RedisVerif/Model/Bincode.lean) tied to the real (de)serialiser
+// ---------------------------------------------------------------------------------------------
+
+/// the code's own deserialisation path of a delta payload (`WalEntry::to_delta`)
+fn real_de_delta(b: &[u8]) -> String {
+    let e = WalEntry { data: b.to_vec(), timestamp: 0, checksum: 0 };
+    match catch_unwind(AssertUnwindSafe(|| e.to_delta())) {
+        Err(_) => "crash".into(),
+        Ok(Err(_)) => "err".into(),
+        Ok(Ok(d)) => format!("ok {}", show_delta(&d)),
+    }
+}
+
+/// state text in the order of the model's key codes (length, then bytes)
+fn show_state_canon(st: &HashMap<String, ReplicatedValue>) -> String {
+    let mut ks: Vec<&String> = st.keys().collect();
+    ks.sort_by(|a, b| crate::enc::key_cmp(a, b));
+    ks.iter().map(|k| format!("{}={}", hex(k.as_bytes()), show_real(&st[*k]))).collect::<Vec<_>>().join(";")
+}
+
+fn real_de_state(b: &[u8]) -> String {
+    match catch_unwind(AssertUnwindSafe(|| bincode::deserialize::<redis_sim::streaming::checkpoint::CheckpointData>(b))) {
+        Err(_) => "crash".into(),
+        Ok(Err(_)) => "err".into(),
+        Ok(Ok(d)) => format!("ok {} {}", d.state.len(), show_state_canon(&d.state)),
+    }
+}
+
+/// damaged variants of a payload: prefixes, trailing bytes, byte substitutions, boundary values
+/// written over every (dense) or sampled position as u64 / u32 fields
+fn payload_mutations(b: &[u8], rng: &mut Rng, dense: bool) -> Vec<(Vec<u8>, &'static str)> {
+    let n = b.len();
+    let mut v: Vec<(Vec<u8>, &'static str)> = Vec::new();
+    for l in 0..n {
+        if (dense && n <= 400) || l < 4 || l + 4 >= n || rng.chance(1, (n / 12).max(1) as u64) {
+            v.push((b[..l].to_vec(), "prefix"));
+        }
+    }
+    for t in [vec![0u8], vec![0xFF; 9], vec![1, 0, 0, 0, 0, 0, 0, 0, 65]] {
+        let mut x = b.to_vec();
+        x.extend_from_slice(&t);
+        v.push((x, "trailing-bytes"));
+    }
+    let step = if dense { 1 } else { (n as u64 / 10).max(6) };
+    for p in 0..n {
+        if !(dense || rng.chance(1, step)) {
+            continue;
+        }
+        for val in [b[p] ^ (1 << rng.below(8)), 0, 1, 2, 0xFF] {
+            // (the draw comes first: the random stream must not depend on the payload BYTES, whose map
+            // order differs from run to run)
+            let take = dense || rng.chance(1, 2);
+            if val != b[p] && take {
+                let mut x = b.to_vec();
+                x[p] = val;
+                v.push((x, "byte"));
+            }
+        }
+        if dense || rng.chance(1, 3) {
+            let rem = (n - p) as u64;
+            for f in [0u64, 1, 2, rem.saturating_sub(8), rem.saturating_sub(7), rem.saturating_sub(9), rem, 1 << 32, 1 << 63, u64::MAX] {
+                if dense || rng.chance(1, 3) {
+                    v.push((overwrite(b, p, &f.to_le_bytes()), "u64-field"));
+                }
+            }
+            for f in [0u32, 1, 5, 6, 7, u32::MAX] {
+                if rng.chance(1, 3) {
+                    v.push((overwrite(b, p, &f.to_le_bytes()), "u32-field"));
+                }
+            }
+        }
+    }
+    v
+}
+
+/// every generated delta: its real bincode bytes decoded by the model (text of every field compared
+/// with the real decoder's and with the original), every / sampled damaged variant decoded by both
+fn bincode_tie(ds: &[ReplicationDelta], rng: &mut Rng, out: &mut Out, dense_first: bool) {
+    for (i, d) in ds.iter().enumerate() {
+        let b = bincode::serialize(d).unwrap();
+        let r = real_de_delta(&b);
+        out.op(format!("BD {}", hex(&b)), r.clone());
+        out.count("bincode:delta:pristine");
+        if r != format!("ok {}", show_delta(d)) {
+            out.violation("C14:roundtrip:bincode-delta", "a delta did not survive bincode serialize/deserialize", json!({"delta": show_delta(d), "decoded": r}));
+        }
+        // damaged variants: densely for the first delta of every 16th batch (if small), lightly sampled for
+        // one more delta per batch
+        let dense = dense_first && i == 0 && b.len() <= 160;
+        if b.len() > 1500 || !(dense || i == 0) {
+            continue;
+        }
+        for (x, what) in payload_mutations(&b, rng, dense) {
+            let r = real_de_delta(&x);
+            out.count(&format!("bincode:delta:{}:{}", what, if r == "err" { "rejected" } else if r == "crash" { "crash" } else { "decoded" }));
+            if r == "crash" {
+                out.violation(&format!("C14:bincode:panic:{}", what), "deserialising a damaged delta payload panicked", json!({"payload": hex(&x), "pristine": hex(&b)}));
+            }
+            if what == "prefix" && r != "err" {
+                out.violation("C14:bincode:truncated-payload-decoded", "a truncated delta payload was decoded", json!({"payload": hex(&x), "pristine": hex(&b), "decoded": r}));
+            }
+            if what == "trailing-bytes" && r != format!("ok {}", show_delta(d)) {
+                out.violation("C14:bincode:trailing-bytes-change-the-value", "bytes after a delta payload changed what it decodes to", json!({"payload": hex(&x), "decoded": r}));
+            }
+            out.op(format!("BD {}", hex(&x)), r);
+        }
+    }
+}
+
+/// a tiny wire builder for hand-made payloads (shapes no real serialiser produces: duplicate map
+/// keys / set elements, invalid UTF-8 keys, out-of-range tags)
+struct Wb(Vec<u8>);
+impl Wb {
+    fn u64(mut self, v: u64) -> Self { self.0.extend_from_slice(&v.to_le_bytes()); self }
+    fn u32(mut self, v: u32) -> Self { self.0.extend_from_slice(&v.to_le_bytes()); self }
+    fn u8(mut self, v: u8) -> Self { self.0.push(v); self }
+    fn bytes(mut self, b: &[u8]) -> Self { self.0.extend_from_slice(&(b.len() as u64).to_le_bytes()); self.0.extend_from_slice(b); self }
+    fn raw(mut self, b: &[u8]) -> Self { self.0.extend_from_slice(b); self }
+}
+
+/// `key | crdt-bytes | vc none | expiry none | stamp (3,1) | rf none | source 1`
+fn raw_delta(key: &[u8], crdt: &[u8]) -> Vec<u8> {
+    Wb(vec![]).bytes(key).raw(crdt).u8(0).u8(0).u64(3).u64(1).u8(0).u64(1).0
+}
+
+fn crafted_payloads() -> Vec<(Vec<u8>, &'static str)> {
+    let lww = |v: &[u8], t: u64, r: u64| Wb(vec![]).u8(1).bytes(v).u64(t).u64(r).u8(0).0;
+    let mut v: Vec<(Vec<u8>, &'static str)> = Vec::new();
+    // duplicate keys in HashMap<ReplicaId,u64>: the later pair wins
+    v.push((raw_delta(b"g", &Wb(vec![]).u32(1).u64(3).u64(7).u64(10).u64(8).u64(20).u64(7).u64(30).0), "dup-key:gcounter"));
+    v.push((raw_delta(b"p", &Wb(vec![]).u32(2).u64(2).u64(1).u64(1).u64(1).u64(2).u64(2).u64(5).u64(9).u64(5).u64(0).0), "dup-key:pncounter"));
+    // duplicate elements in HashSet<String>
+    v.push((raw_delta(b"s", &Wb(vec![]).u32(3).u64(3).bytes(b"a").bytes(b"bb").bytes(b"a").0), "dup-elem:gset"));
+    // ORSet: duplicate element key (later tag set wins), duplicate tags, empty tag set
+    v.push((raw_delta(b"o", &Wb(vec![]).u32(4).u64(3).bytes(b"x").u64(2).u64(1).u64(1).u64(1).u64(1).bytes(b"y").u64(0).bytes(b"x").u64(1).u64(2).u64(9).u64(1).u64(1).u64(4).0), "dup-key:orset"));
+    // Hash: duplicate field
+    v.push((raw_delta(b"h", &Wb(vec![]).u32(5).u64(2).bytes(b"f").raw(&lww(b"1", 1, 1)).bytes(b"f").raw(&lww(b"2", 2, 1)).0), "dup-key:hash"));
+    // variant index / option tag / bool out of range
+    for t in [6u32, 7, 255, 256, u32::MAX] {
+        v.push((raw_delta(b"k", &Wb(vec![]).u32(t).raw(&lww(b"v", 1, 1)).0), "variant-index"));
+    }
+    for tag in [2u8, 3, 0x80, 0xFF] {
+        v.push((raw_delta(b"k", &Wb(vec![]).u32(0).u8(tag).bytes(b"v").u64(1).u64(1).u8(0).0), "option-tag"));
+        v.push((raw_delta(b"k", &Wb(vec![]).u32(0).u8(1).bytes(b"v").u64(1).u64(1).u8(tag).0), "bool-byte"));
+    }
+    // keys: valid and invalid UTF-8
+    for k in utf8_samples() {
+        v.push((raw_delta(&k, &Wb(vec![]).u32(0).raw(&lww(b"v", 1, 1)).0), "key-bytes"));
+    }
+    // element / field names inside the containers
+    for k in [&[0xFFu8][..], &[0xC0, 0x80], &[0xED, 0xA0, 0x80], &[0xF4, 0x90, 0x80, 0x80], "é".as_bytes(), &[]] {
+        v.push((raw_delta(b"s", &Wb(vec![]).u32(3).u64(1).bytes(k).0), "gset-element-bytes"));
+        v.push((raw_delta(b"h", &Wb(vec![]).u32(5).u64(1).bytes(k).raw(&lww(&[0xFF, 0x00], 1, 1)).0), "hash-field-bytes"));
+    }
+    // counts that promise more than is there
+    for n in [1u64, 2, 1 << 20, 1 << 32, 1 << 63, u64::MAX] {
+        v.push((raw_delta(b"g", &Wb(vec![]).u32(1).u64(n).0), "count-beyond-input"));
+        v.push((raw_delta(b"s", &Wb(vec![]).u32(3).u64(n).bytes(b"a").0), "count-beyond-input"));
+        v.push((Wb(vec![]).u64(n).raw(b"abc").0, "key-length-beyond-input"));
+    }
+    v
+}
+
+/// byte strings around every boundary of the UTF-8 well-formedness table
+fn utf8_samples() -> Vec<Vec<u8>> {
+    let mut v: Vec<Vec<u8>> = vec![vec![], b"plain".to_vec(), "é€𐍈\u{10FFFF}\u{0}".as_bytes().to_vec()];
+    for b0 in 0..=255u8 {
+        v.push(vec![b0]);
+    }
+    for b0 in [0x7Fu8, 0x80, 0xBF, 0xC0, 0xC1, 0xC2, 0xDF, 0xE0, 0xEF, 0xF0, 0xF4, 0xF5] {
+        for b1 in [0x00u8, 0x7F, 0x80, 0x8F, 0x90, 0x9F, 0xA0, 0xBF, 0xC0, 0xFF] {
+            v.push(vec![b0, b1]);
+        }
+    }
+    for b0 in [0xE0u8, 0xE1, 0xEC, 0xED, 0xEE, 0xEF] {
+        for b1 in [0x7Fu8, 0x80, 0x9F, 0xA0, 0xBF, 0xC0] {
+            for b2 in [0x7Fu8, 0x80, 0xBF, 0xC0] {
+                v.push(vec![b0, b1, b2]);
+            }
+        }
+    }
+    for b0 in [0xF0u8, 0xF1, 0xF3, 0xF4, 0xF5, 0xF7, 0xF8, 0xFF] {
+        for b1 in [0x7Fu8, 0x80, 0x8F, 0x90, 0xBF, 0xC0] {
+            for b2 in [0x7Fu8, 0x80, 0xBF, 0xC0] {
+                for b3 in [0x7Fu8, 0x80, 0xBF, 0xC0] {
+                    v.push(vec![b0, b1, b2, b3]);
+                }
+            }
+        }
+    }
+    // sequences: valid char followed by a torn one, etc.
+    v.push(vec![0x61, 0xC3]);
+    v.push(vec![0xC3, 0xA9, 0xE2, 0x82]);
+    v.push(vec![0xF0, 0x90, 0x8D, 0x88, 0x61, 0xF0, 0x90, 0x8D]);
+    v
+}
+
+fn bincode_fixed(out: &mut Out) {
+    for k in utf8_samples() {
+        out.op(format!("U8 {}", hex(&k)), if std::str::from_utf8(&k).is_ok() { "1".into() } else { "0".into() });
+        out.count("bincode:utf8-sample");
+    }
+    for (b, what) in crafted_payloads() {
+        let r = real_de_delta(&b);
+        out.count(&format!("bincode:crafted:{}:{}", what, if r == "err" { "rejected" } else if r == "crash" { "crash" } else { "decoded" }));
+        if r == "crash" {
+            out.violation(&format!("C14:bincode:panic:{}", what), "deserialising a hand-made delta payload panicked", json!({"payload": hex(&b)}));
+        }
+        out.op(format!("BD {}", hex(&b)), r);
+    }
+    // checkpoint payloads: duplicate key (later wins), invalid key, count beyond input
+    let rvb = |v: &[u8]| Wb(vec![]).u32(0).u8(1).bytes(v).u64(1).u64(1).u8(0).u8(0).u8(0).u64(1).u64(1).u8(0).0;
+    let states: Vec<Vec<u8>> = vec![
+        Wb(vec![]).u64(0).0,
+        Wb(vec![]).u64(2).bytes(b"k").raw(&rvb(b"1")).bytes(b"k").raw(&rvb(b"2")).0,
+        Wb(vec![]).u64(2).bytes(b"kk").raw(&rvb(b"1")).bytes(b"z").raw(&rvb(b"2")).0,
+        Wb(vec![]).u64(1).bytes(&[0xFF]).raw(&rvb(b"1")).0,
+        Wb(vec![]).u64(3).bytes(b"k").raw(&rvb(b"1")).0,
+        Wb(vec![]).u64(u64::MAX).0,
+        Wb(vec![]).u64(1).bytes(b"k").raw(&rvb(b"1")).raw(b"trailing").0,
+    ];
+    for b in states {
+        out.op(format!("BS {}", hex(&b)), real_de_state(&b));
+        out.count("bincode:crafted:state");
+    }
+}
+
+
+/// cause: `CheckpointReader::load` slices `data[48..52]` and `data[52..52+len]` without a bounds check
+const LOAD_PANIC_SIG: &str = "C14:checkpoint:load-without-validate:panics-on-short-image";
+
+/// `CheckpointReader::open` + `load` WITHOUT `validate` (public API; every caller inside /repo validates first)
+fn load_only(data: &[u8]) -> Result<Result<HashMap<String, ReplicatedValue>, CheckpointError>, ()> {
+    catch_unwind(AssertUnwindSafe(|| {
+        let r = CheckpointReader::open(data)?;
+        Ok(r.load()?.state)
+    }))
+    .map_err(|_| ())
+}
+
+/// does `load` bounds-check a short image (1) or panic (0)?  Probed on a header-only image of a real
+/// checkpoint; sent to the model with the `V` op.  The ORACLE on this path is unconditional.
+fn probe_load_checked() -> bool {
+    let img = CheckpointWriter::new(Compression::None).write(HashMap::new(), 1, 1).unwrap();
+    load_only(&img[..48]).is_ok()
+}
+
+/// accessors of the opened segment / checkpoint against the model's reading of the same bytes
+fn segment_accessors(ds: &[ReplicationDelta], img: &[u8], out: &mut Out) {
+    let mut w = SegmentWriter::new(Compression::None);
+    let mut ok = w.is_empty() && w.record_count() == 0;
+    for d in ds {
+        w.write_delta(d).unwrap();
+    }
+    ok = ok && !w.is_empty() && w.record_count() == ds.len() && w.estimated_size() == img.len();
+    if !ok {
+        out.violation("C14:segment:writer-accessors", "SegmentWriter::{is_empty,record_count,estimated_size} disagree with what was written", json!({"records": ds.len(), "image_len": img.len()}));
+    }
+    if let Ok(r) = SegmentReader::open(img) {
+        let (h, f, sg) = (r.header(), r.footer(), r.segment());
+        out.op(
+            "SH".into(),
+            format!("count {} min {} max {} hcrc {} dcrc {} usize {} csize {} total {}", h.record_count, h.min_timestamp, h.max_timestamp, h.header_checksum, f.data_checksum, f.uncompressed_size, f.compressed_size, sg.size_bytes()),
+        );
+        if sg.record_count() != h.record_count || sg.min_timestamp() != h.min_timestamp || sg.max_timestamp() != h.max_timestamp {
+            out.violation("C14:segment:accessors", "Segment accessors disagree with the header", json!({}));
+        }
+        out.count("op:segment-accessors");
+    }
+}
+
+fn checkpoint_accessors(img: &[u8], out: &mut Out) {
+    if let Ok(r) = CheckpointReader::open(img) {
+        out.op("CH".into(), format!("keys {} ts {} last {} compressed {}", r.key_count(), r.timestamp_ms(), r.last_segment_id(), r.is_compressed() as u8));
+        out.count("op:checkpoint-accessors");
+    }
+}
+
 struct Muts {
     cuts: Vec<usize>,
     subs: Vec<(usize, u8)>,
@@ -348,6 +638,36 @@ fn segment_case(ds: &[ReplicationDelta], rng: &mut Rng, out: &mut Out, thorough:
     let r = read_segment(&img);
     out.op(format!("IS {}", hex(&img)), show(&r));
     out.count("roundtrip:segment");
+    segment_accessors(ds, &img, out);
+    // damage that REACHES the deserialiser: one record byte replaced and the data checksum recomputed;
+    // what comes back is compared field by field with the model's bincode decoder (no oracle: whoever
+    // recomputes the checksum can store other data)
+    {
+        let n = img.len();
+        let tries = if thorough { 120 } else { 24 };
+        for _ in 0..tries {
+            let p = 40 + rng.below((n - 64) as u64) as usize;
+            let v = match rng.below(4) { 0 => 0u8, 1 => 0xFF, 2 => img[p] ^ (1 << rng.below(8)), _ => rng.below(256) as u8 };
+            if v == img[p] {
+                continue;
+            }
+            let mut b = img.clone();
+            b[p] = v;
+            let c = crc32fast::hash(&b[40..n - 24]);
+            b[n - 24..n - 20].copy_from_slice(&c.to_le_bytes());
+            let r = read_segment(&b);
+            let imp = match &r {
+                Err(_) => "crash".to_string(),
+                Ok(Err(e)) => format!("err {}", seg_err(e)),
+                Ok(Ok(v)) => std::iter::once(format!("ok {}", v.len())).chain(v.iter().map(show_delta)).collect::<Vec<_>>().join(" | "),
+            };
+            out.count(&format!("damage:segment:record-byte+checksum-recomputed:{}", if imp.starts_with("ok") { "decoded" } else if imp == "crash" { "crash" } else { "rejected" }));
+            if r.is_err() {
+                out.violation("C14:segment:panic:record-byte+checksum-recomputed", "reading a segment with a damaged record (valid checksum) panicked", json!({"segment": hex(&b)}));
+            }
+            out.op(format!("sxf {} {}", p, v), imp);
+        }
+    }
     out.case(&format!("seg {}", orig.join("|")), ds.len() >= 2);
     out.sample(json!({"segment": hex(&img[..img.len().min(200)]), "deltas": orig.len(), "source": source}));
     let same = |v: &Vec<ReplicationDelta>| v.len() == ds.len() && v.iter().zip(&orig).all(|(d, o)| show_delta(d) == *o);
@@ -487,6 +807,85 @@ fn checkpoint_case(ds: &[ReplicationDelta], rng: &mut Rng, out: &mut Out, thorou
     let r = read_checkpoint(&img);
     out.op(format!("IC {}", hex(&img)), show(&r));
     out.count("roundtrip:checkpoint");
+    checkpoint_accessors(&img, out);
+    // the model's bincode decoder on the real payload (checkpoint state, field by field)
+    out.op(format!("BS {}", hex(&payload)), real_de_state(&payload));
+    // load() WITHOUT validate(): every / sampled truncation and a few substitutions
+    {
+        let n = img.len();
+        for l in 0..n {
+            if !(thorough || l < 60 || l + 20 >= n || rng.chance(1, (n / 40).max(1) as u64)) {
+                continue;
+            }
+            let r = load_only(&img[..l]);
+            out.op(format!("cl {}", l), show(&r));
+            out.count("damage:checkpoint:load-without-validate:truncate");
+            match &r {
+                Err(_) => out.violation(
+                    LOAD_PANIC_SIG,
+                    &format!("CheckpointReader::open succeeded on a checkpoint cut to {} of {} bytes and load() panicked instead of returning an error (image ends {})", l, n, if l < 52 { "inside the data-length field" } else { "inside the data section" }),
+                    json!({"checkpoint": hex(&img), "truncate_to": l}),
+                ),
+                // (a cut inside the footer leaves the payload intact: load() does not look at the footer and
+                // returns the SAME state — not "different data")
+                Ok(Ok(st)) => {
+                    if show_state(st) != orig {
+                        out.violation("C14:checkpoint:load-without-validate:truncate:decoded-different", "load() decoded a truncated checkpoint into different data", json!({"checkpoint": hex(&img), "truncate_to": l}))
+                    } else {
+                        out.count("load-without-validate:cut-inside-the-footer:same-state");
+                    }
+                }
+                Ok(Err(_)) => {}
+            }
+        }
+        for p in [5usize, 48, 49, 50, 51] {
+            for v in [0u8, 1, 0xFF] {
+                if img[p] == v {
+                    continue;
+                }
+                let mut b = img.clone();
+                b[p] = v;
+                let r = load_only(&b);
+                out.op(format!("clx {} {}", p, v), show(&r));
+                out.count("damage:checkpoint:load-without-validate:field");
+                if r.is_err() {
+                    // the data-length field now announces more than the image holds: the same missing bounds check
+                    let dl = u32::from_le_bytes([b[48], b[49], b[50], b[51]]) as usize;
+                    let sig = if 52 + dl > b.len() { LOAD_PANIC_SIG } else { "C14:checkpoint:load-without-validate:panic:other" };
+                    out.violation(sig, "load() panicked on a checkpoint whose data-length field was changed", json!({"checkpoint": hex(&img), "pos": p, "val": v, "announced_data_length": dl, "image_length": b.len()}));
+                }
+            }
+        }
+        // payload byte replaced, both checksums recomputed: reaches bincode
+        let tries = if thorough { 120 } else { 24 };
+        for _ in 0..tries {
+            if n <= 68 {
+                break;
+            }
+            let p = 52 + rng.below((n - 68) as u64) as usize;
+            let v = match rng.below(4) { 0 => 0u8, 1 => 0xFF, 2 => img[p] ^ (1 << rng.below(8)), _ => rng.below(256) as u8 };
+            if v == img[p] {
+                continue;
+            }
+            let mut b = img.clone();
+            b[p] = v;
+            let dc = crc32fast::hash(&b[52..n - 16]);
+            b[n - 16..n - 12].copy_from_slice(&dc.to_le_bytes());
+            let fc = crc32fast::hash(&b[n - 16..n - 4]);
+            b[n - 4..].copy_from_slice(&fc.to_le_bytes());
+            let r = read_checkpoint(&b);
+            let imp = match &r {
+                Err(_) => "crash".to_string(),
+                Ok(Err(e)) => format!("err {}", chk_err(e)),
+                Ok(Ok(st)) => format!("ok {}", show_state_canon(st)),
+            };
+            out.count(&format!("damage:checkpoint:payload-byte+checksums-recomputed:{}", if imp.starts_with("ok") { "decoded" } else if imp == "crash" { "crash" } else { "rejected" }));
+            if r.is_err() {
+                out.violation("C14:checkpoint:panic:payload-byte+checksums-recomputed", "reading a checkpoint with a damaged payload (valid checksums) panicked", json!({"checkpoint": hex(&b)}));
+            }
+            out.op(format!("cxf {} {}", p, v), imp);
+        }
+    }
     out.case(&format!("chk {}", orig), state.len() >= 2);
     if show(&r) != "ok same" {
         out.violation("C14:roundtrip:checkpoint", "a state did not survive CheckpointWriter/CheckpointReader", json!({"state": orig}));
@@ -577,6 +976,74 @@ fn checkpoint_case(ds: &[ReplicationDelta], rng: &mut Rng, out: &mut Out, thorou
         if show(&r) == "ok diff" || r.is_err() {
             out.violation("C14:checkpoint:trailing:decoded-different", "trailing bytes changed the decoded checkpoint", json!({"tail": hex(&t)}));
         }
+    }
+}
+
+
+/// the checkpoint MANAGER path (what a node runs): `CheckpointManager::create_checkpoint` puts the image
+/// into an object store, `load_checkpoint` = get + open + validate + load.  The stored object is compared
+/// with the model's writer (`C` op) and reading it — pristine, cut, one byte replaced — with the model's
+/// reader, for both `CheckpointConfig::default()` (compression_enabled: the feature is off) and `test()`.
+fn manager_case(ds: &[ReplicationDelta], rng: &mut Rng, out: &mut Out) {
+    use redis_sim::streaming::checkpoint::{CheckpointConfig, CheckpointManager};
+    use redis_sim::streaming::{InMemoryObjectStore, ManifestManager, ObjectStore};
+    let state: HashMap<String, ReplicatedValue> = ds.iter().map(|d| (d.key.clone(), d.value.clone())).collect();
+    let orig = show_state(&state);
+    let last = rng.below(50);
+    let cfg = if rng.chance(1, 2) { CheckpointConfig::default() } else { CheckpointConfig::test() };
+    let rt = tokio::runtime::Builder::new_current_thread().enable_time().build().unwrap();
+    let store = InMemoryObjectStore::new();
+    let mgr = CheckpointManager::new(std::sync::Arc::new(store.clone()), "p".to_string(), ManifestManager::new(store.clone(), "p"), cfg);
+    let res = match rt.block_on(mgr.create_checkpoint(state.clone(), last)) {
+        Ok(r) => r,
+        Err(e) => {
+            out.violation("C14:checkpoint-manager:create-failed", &format!("create_checkpoint failed: {}", e), json!({"state": orig}));
+            return;
+        }
+    };
+    let img = rt.block_on(store.get(&res.key)).expect("stored checkpoint");
+    let payload = img[52..img.len() - 16].to_vec();
+    out.op(format!("C {} {} {} {}", state.len(), res.timestamp_ms, last, hex(&payload)), hex(&img));
+    out.op(format!("IC {}", hex(&img)), "ok same".into());
+    if res.key_count != state.len() as u64 || res.size_bytes != img.len() as u64 || res.last_segment_id != last {
+        out.violation("C14:checkpoint-manager:result-fields", "CheckpointResult disagrees with what was stored", json!({"state": orig}));
+    }
+    out.count("checkpoint-manager:case");
+    let load = |b: &[u8]| -> String {
+        rt.block_on(store.put(&res.key, b)).expect("put");
+        match catch_unwind(AssertUnwindSafe(|| rt.block_on(mgr.load_checkpoint(&res.key)))) {
+            Err(_) => "crash".into(),
+            Ok(Err(e)) => format!("err {}", chk_err(&e)),
+            Ok(Ok(d)) => if show_state(&d.state) == orig { "ok same".into() } else { "ok diff".into() },
+        }
+    };
+    let r = load(&img);
+    if r != "ok same" {
+        out.violation("C14:roundtrip:checkpoint-manager", "a state did not survive create_checkpoint / load_checkpoint", json!({"state": orig, "got": r}));
+    }
+    let n = img.len();
+    for _ in 0..12 {
+        let l = rng.below(n as u64) as usize;
+        let r = load(&img[..l]);
+        out.op(format!("ct {}", l), r.clone());
+        out.count("damage:checkpoint-manager:truncate");
+        if !r.starts_with("err") {
+            out.violation("C14:checkpoint-manager:truncate:not-an-error", "load_checkpoint did not reject a truncated object", json!({"checkpoint": hex(&img), "len": l, "got": r}));
+        }
+        let p = rng.below(n as u64) as usize;
+        let v = img[p] ^ (1 << rng.below(8));
+        let mut b = img.clone();
+        b[p] = v;
+        let r = load(&b);
+        out.op(format!("cx {} {}", p, v), r.clone());
+        out.count("damage:checkpoint-manager:bitflip");
+        if r == "crash" || r == "ok diff" {
+            out.violation("C14:checkpoint-manager:corrupt:decoded-different", "load_checkpoint decoded a corrupted object into different data (or panicked)", json!({"checkpoint": hex(&img), "pos": p, "val": v, "got": r}));
+        }
+    }
+    // a missing object is an error, not a panic
+    if !matches!(catch_unwind(AssertUnwindSafe(|| rt.block_on(mgr.load_checkpoint("p/checkpoints/none.chk")))), Ok(Err(_))) {
+        out.violation("C14:checkpoint-manager:missing-object", "load_checkpoint of a missing object is not an error", json!({}));
     }
 }
 
@@ -695,10 +1162,36 @@ pub fn run(a: &Args) {
     let mut out = Out::new(&a.out);
     let mut rng = Rng::new(a.seed);
     let thorough = a.tier == "thorough";
+    let load_checked = probe_load_checked();
     out.op(
-        format!("V {} {}", crate::cfg::CODE_WAL_FORMAT, crate::cfg::CODE_SEGMENT_STRICT_COUNT as u8),
-        format!("format {} strict {}", crate::cfg::CODE_WAL_FORMAT, crate::cfg::CODE_SEGMENT_STRICT_COUNT as u8),
+        format!("V {} {} {}", crate::cfg::CODE_WAL_FORMAT, crate::cfg::CODE_SEGMENT_STRICT_COUNT as u8, load_checked as u8),
+        format!("format {} strict {} load-checked {}", crate::cfg::CODE_WAL_FORMAT, crate::cfg::CODE_SEGMENT_STRICT_COUNT as u8, load_checked as u8),
     );
+    out.count(if load_checked { "variant:checkpoint-load:bounds-checked" } else { "variant:checkpoint-load:unchecked(panics on a short image)" });
+    crate::walcov::report(&mut out, "C14");
+    {
+        // on-disk constants: the crate's public ones and the private ones scanned from the source
+        // against the sizes the model's readers / writers use (a written image of known content)
+        use redis_sim::streaming::segment::{FOOTER_MAGIC, SEGMENT_MAGIC, SEGMENT_VERSION};
+        let c = format!("seg-magic {} foot-magic {} seg-version {} seg-header {} seg-footer {} chk-magic {} chk-version {} chk-header {}",
+            hex(&SEGMENT_MAGIC), hex(&FOOTER_MAGIC), SEGMENT_VERSION, crate::walcov::SRC_SEGMENT_HEADER_SIZE, crate::walcov::SRC_SEGMENT_FOOTER_SIZE,
+            hex(crate::walcov::SRC_CHECKPOINT_MAGIC.as_bytes()), crate::walcov::SRC_CHECKPOINT_VERSION, crate::walcov::SRC_CHECKPOINT_HEADER_SIZE);
+        out.op("FMT".into(), c);
+    }
+    // known finding (must reproduce until the fix lands): the checkpoint of the EMPTY state (76 bytes) cut
+    // right after its 48-byte header, inside the length field and inside the data section — open() accepts
+    // each, load() must not panic
+    {
+        let img = CheckpointWriter::new(Compression::None).write(HashMap::new(), 1, 1).unwrap();
+        for l in [48usize, 50, 52, 59] {
+            let r = load_only(&img[..l]);
+            out.count(&format!("corpus:load-without-validate:cut-{}:{}", l, match &r { Err(_) => "panic", Ok(Err(_)) => "error", Ok(Ok(_)) => "decoded" }));
+            if r.is_err() {
+                out.violation(LOAD_PANIC_SIG, &format!("CheckpointReader::open succeeded on the empty-state checkpoint cut to {} of {} bytes and load() panicked instead of returning an error", l, img.len()), json!({"checkpoint": hex(&img), "truncate_to": l}));
+            }
+        }
+    }
+    bincode_fixed(&mut out);
     // fixed corpus first (both were defects, repaired by `fix:` commits: they must PASS now)
     {
         let w = embedded_footer_witness();
@@ -719,6 +1212,7 @@ pub fn run(a: &Args) {
         let hash = ReplicationDelta::new("h".into(), MRv { crdt: MCrdt::H(h), vc: None, exp: None, t: 3, r: 1, rf: None }.to_real(), ReplicaId::new(1));
         let ds = vec![mk("ff", vec![0xFF]), mk("bitmap", vec![0x80, 0x01, 0xFE, 0x00, 0xFF]), hash];
         roundtrips(&ds, &mut rng, &mut out);
+        bincode_tie(&ds, &mut rng, &mut out, true);
         segment_case(&ds, &mut rng, &mut out, false, "non-utf8-payloads");
         checkpoint_case(&ds, &mut rng, &mut out, false);
     }
@@ -750,7 +1244,7 @@ pub fn run(a: &Args) {
         let r = SegmentWriter::new(Compression::None).finish();
         out.op("S 0 ".into(), match r { Err(SegmentError::Empty) => "none".into(), Err(e) => format!("err {}", seg_err(&e)), Ok(b) => hex(&b) });
     }
-    for _ in 0..a.n {
+    for case_no in 0..a.n {
         let n = match rng.below(6) {
             0 => 1,
             1 => 2,
@@ -758,10 +1252,14 @@ pub fn run(a: &Args) {
         } as usize;
         let ds = gen_deltas(&mut rng, &mut out, n);
         roundtrips(&ds, &mut rng, &mut out);
+        bincode_tie(&ds, &mut rng, &mut out, case_no % 16 == 0);
         segment_case(&ds, &mut rng, &mut out, thorough, "generated");
         checkpoint_case(&ds, &mut rng, &mut out, thorough);
         if rng.chance(1, 3) {
             wal_entry_damage(&ds[0], &mut rng, &mut out, thorough, false);
+        }
+        if case_no % 4 == 0 {
+            manager_case(&ds, &mut rng, &mut out);
         }
     }
     out.finish("case = one batch of real ReplicationDeltas (every CRDT kind: values from random_value / reachable replicas / CRDT API, many-field hashes, binary/empty/1000-byte strings, tombstones, vector clocks, expiry, u64::MAX stamps; unicode/NUL/empty keys) encoded as WAL entries, one segment, one checkpoint and five gossip messages; every (sampled when > 400 bytes; thorough: every) truncation length and header/footer position x {bit flip, 0x00, 0xFF} plus sampled body positions; distinct by canonical text of the batch; non-trivial iff >= 2 deltas");
